@@ -1,7 +1,7 @@
 ------------------------------- MODULE MCSdl -------------------------------
 (* Shared definitions for the bounded document spaces of Sdl.tla (J1) and their export as ndjson (J2); the spaces
    themselves are in MCSdlTiny / MCSdlQuick / MCSdlThorough. *)
-EXTENDS Sdl, Json
+EXTENDS Sdl, Json, SdlSamples
 
 AllBodies == SUBSET {"command", "args", "env"}
 NoneAll   == {{}, {"command", "args", "env"}}
@@ -43,7 +43,16 @@ CpuEdge == List(<< Cpu(CpuM(10)), Cpu(CpuM(100)), Cpu(CpuM(1500)), Cpu(CpuM(1000
 
 Sl(name, svcs, profs, places, body, expk, counts, quants) ==
   [name |-> name, svcs |-> svcs, profs |-> profs, places |-> places, body |-> body, expk |-> expk, counts |-> counts,
-   quants |-> quants]
+   quants |-> quants, samples |-> <<>>]
+
+\* the large structural space that is sampled, not enumerated: three services, three placements, two profiles, every
+\* body subset, every expose kind, three counts, a mix of quantity forms
+BigSlice(name, samples) ==
+  [Sl(name, <<"api", "db", "web">>, <<"large", "small">>, <<"east", "north", "west">>,
+      [s \in {"api", "db", "web"} |-> AllBodies], [s \in {"api", "db", "web"} |-> AllKinds], {1, 2, 7},
+      [c \in {"large", "small"} |-> IF c = "large" THEN <<List(<<QLarge, QOdd>>), CpuFam("dec", 100, 600)>>
+                                                   ELSE <<List(<<QSmall>>), MemFam("G", 0, 3), StorageFam("G", 1, 9)>>])
+   EXCEPT !.samples = samples]
 
 UnitsSlice(name, fams) ==
   Sl(name, <<"web">>, <<"large">>, <<"east">>, [s \in {"web"} |-> {{}}], [s \in {"web"} |-> {"http"}], {1},
